@@ -38,6 +38,9 @@ func main() {
 	if os.Getenv("C09_MULTI_ONLY") == "" {
 		keeperPart(out, r.Fork(3))
 	}
+	if os.Getenv("C09_KEEPER_ONLY") != "" {
+		return
+	}
 	multiPart(out, r.Fork(5))
 	if os.Getenv("C09_MULTI_ONLY") == "" {
 		valPart(out, r.Fork(6))
